@@ -77,6 +77,7 @@ class C05(L1Prop):
             "served; non-trivial = the fault actually fired")
     KINDS = [
         ("http-av-new", "http POST av hyph=nil hyph=9 history b:5,5"),
+        ("http-av-new-based", "http POST av hyph=fresh hyph=9 history b:5,6"),     # a replica that synced elsewhere before
         ("http-av", "http POST av hyph=latest:1 hyph=1 history b:6"),
         ("http-av-conflict", "http POST av hyph=nil hyph=1 history b:6"),
         ("http-gcv", "http GET gcv hyph=anc:1:1 hyph=1 absent e"),
